@@ -1189,7 +1189,8 @@ def join(
         cnt = 0
         for name in right_names:
             suffixed = name + suffix + (f"_{cnt}" if cnt > 0 else "")
-            while suffixed in left_names:
+            # must not collide with a column of the right table that keeps its name either
+            while suffixed in left_names or suffixed in right_names:
                 cnt += 1
                 suffixed = name + suffix + f"_{cnt}"
 
